@@ -85,6 +85,12 @@ class Encoder(object):
             if all((x is y) or tm.rat_equal(x, y) for x, y in zip(args, a2)):
                 return v
         v = self.fresh('a_' + f + '_')
+        # congruence (solver-based Ackermannisation): equal arguments => equal values, for atoms not merged syntactically
+        if len(lst) <= 12 and all(a.id in self.expr for a in args):
+            for a2, v2 in lst:
+                if all(x.id in self.expr for x in a2):
+                    eqs = ' '.join('(= %s %s)' % (self.expr[x.id], self.expr[y.id]) for x, y in zip(args, a2))
+                    self.asserts.append('(=> (and true %s) (= %s %s))' % (eqs, v, v2))
         lst.append((args, v))
         self.info['atoms'] += 1
         return v
